@@ -106,17 +106,28 @@ func (e *env) resumed(c *vh.Ctx) {
 	}
 	c.Extra["resumption_available"] = supported
 	if c.Tier == "quick" {
-		// seeded sample
-		c.Rng.Shuffle(len(pairs), func(i, j int) { pairs[i], pairs[j] = pairs[j], pairs[i] })
-		if max := c.N + c.N/2; len(pairs) > max {
-			pairs = pairs[:max]
+		// always: for every resumable (client, version), a verifying second configuration with each name setting and both clocks
+		// after a first connection that cached a leaf valid for ServerName only (verified, and with InsecureSkipVerify);
+		// plus a seeded sample of the rest
+		var keep, rest []*resPair
+		for _, p := range pairs {
+			if p.lk == lS && p.a.inv == nsUnset && !p.b.skipVerify && !p.b.skipTime {
+				keep = append(keep, p)
+			} else {
+				rest = append(rest, p)
+			}
 		}
+		c.Rng.Shuffle(len(rest), func(i, j int) { rest[i], rest[j] = rest[j], rest[i] })
+		if max := c.N / 2; len(rest) > max {
+			rest = rest[:max]
+		}
+		pairs = append(keep, rest...)
 	}
 	e.runPairs(pairs)
 	for _, p := range pairs {
 		l := e.p.leaves[p.lk]
 		in := map[string]any{"first_connection": p.a.key(), "second_connection": p.b.key(), "cached_leaf": p.lk.String(),
-			"cached_leaf_names": l.cert.DNSNames, "cached_leaf_not_after": l.cert.NotAfter, "client_time_2": p.b.now(),
+			"cached_leaf_names": l.sanNames(), "cached_leaf_not_after": l.cert.NotAfter, "client_time_2": p.b.now(),
 			"first_connection_InsecureSkipVerify": p.a.skipVerify}
 		if p.o1.class != "ok" {
 			c.Count("resume-setup-failed")
